@@ -132,6 +132,14 @@ def run_audit(props, repo_root, jobs=16, into_evidence=False, verbose=False):
                     jobs_.append((d, p))
         with ThreadPoolExecutor(max_workers=jobs) as ex:
             for (d, p), res in zip(jobs_, ex.map(lambda dp: _run_seed(dp[0], dp[1], repo_root), jobs_)):
+                if res["status"] == "not detected by this check":
+                    try:
+                        others = {k: v for k, v in (json.loads((d / "meta.json").read_text()).get("caught_by") or {}).items() if k != p}
+                    except Exception:
+                        others = {}
+                    if others:
+                        res["status"] = "breaks this property, reported by another property's check"
+                        res["reported_by"] = others
                 seed_results.setdefault(p, []).append(res)
                 if verbose or res["status"] != "detected":
                     print(f"SEED  {res['status']:28s} {p} {res['seed']} rules={res.get('rules')}")
